@@ -130,6 +130,17 @@ def gen_program(rnd, pid, small=False):
             if rnd.random() < 0.15:
                 th.append(['sleep', rnd.choice([1, 2])])
             th.append(['sched', c, 'ww', far + 256 + 8 * k])
+    own = [c for c in tempo if owner[c] == 'own']
+    if own and rnd.random() < 0.15:
+        # motif: a routine that is pending on a tempo clock (so that clock is "its" clock) is awakened by SystemClock's
+        # thread first and speeds the tempo clock up there, while another task waits on the tempo clock
+        c = rnd.choice(own)
+        tasks['xr'] = dict(kind='rt', script=[dict(do=[['tempo', c, *rnd.choice([[4, 1], [8, 1]])]], res=['other']),
+                                              dict(do=[], res=rnd.choice([['none'], ['stop']]))])
+        tasks['xw'] = dict(kind='fn', script=[dict(do=[], res=['none'])])
+        tclock['xr'] = tclock['xw'] = c
+        d = rnd.choice([128, 256, 512])
+        threads[0] += [['sched', 'sys', 'xr', d], ['sched', c, 'xr', 4096], ['sched', c, 'xw', rnd.choice([2048, 3072])]]
     oscn = 0
     for i, th in enumerate(threads):
         if i > 0 and rnd.random() < 0.3:        # the OSC receive thread: incoming datagrams are dispatched via SystemClock
